@@ -59,6 +59,13 @@ class Conc:
             if isinstance(v, (list, tuple)) and isinstance(t[2], int) and 0 <= t[2] < len(v):
                 return v[t[2]]
             raise CannotEvaluate("field " + T.show(t))
+        if h == "index":
+            base, idx = self.eval(t[1], params), self.eval(t[2], params)
+            if isinstance(base, list) and not isinstance(idx, (list, tuple, str)) and idx == int(idx):
+                if 0 <= int(idx) < len(base):
+                    return base[int(idx)]
+                raise ModelPanic("index %d out of bounds (len %d)" % (int(idx), len(base)))
+            raise CannotEvaluate("index " + T.show(t))
         if h == "some":
             return ("some", self.eval(t[1], params))
         if h == "const":
@@ -147,6 +154,12 @@ class Conc:
             for x in xs:
                 if self.call(args[1], [x], params):
                     return ("some", x)
+            return None
+        if name == ITER + "position":
+            from fractions import Fraction
+            for i, x in enumerate(self.eval(args[0], params)):
+                if self.call(args[1], [x], params):
+                    return ("some", Fraction(i))
             return None
         if name == ITER + "find_map":
             for x in self.eval(args[0], params):
